@@ -21,7 +21,7 @@ func XMultiSameMethod() *spec.Spec {
 
 // Extended returns the extended families (everything beyond the documented core combinations).
 func Extended(thorough bool) []*spec.Spec {
-	out := []*spec.Spec{XMultiSameMethod(), XCrossFile(), XTwoServiceFiles(), XTimestampCards(), XTimestampCardsFmt(), XEmptyOrders(), XOneofSiblings(), XSharedMethodHeader(), XQuotedHeaderTexts(), XQuotedAnnotationValues(), XForeignResponse(), XSameNamedNestedEnums(), XOneofVariantShapes(), XInt64Cards(), XHeaderNameShapes(), XParamNameClashes(), XHeaderOverrideShapes(), XUnwrapWrapperShapes(), XProto2Basic(), XSharedTypesAcrossServiceFiles(), XHeaderTypeFormat()}
+	out := []*spec.Spec{XMultiSameMethod(), XCrossFile(), XTwoServiceFiles(), XTimestampCards(), XTimestampCardsFmt(), XEmptyOrders(), XOneofSiblings(), XSharedMethodHeader(), XQuotedHeaderTexts(), XQuotedAnnotationValues(), XForeignResponse(), XSameNamedNestedEnums(), XOneofVariantShapes(), XInt64Cards(), XHeaderNameShapes(), XParamNameClashes(), XHeaderOverrideShapes(), XUnwrapWrapperShapes(), XProto2Basic(), XSharedTypesAcrossServiceFiles(), XHeaderTypeFormat(), XNestedAnnotated()}
 	out = append(out, XAnnotationCards()...)
 	out = append(out, XIdentifierShapes()...)
 	out = append(out, CtxSpecs()...)
@@ -562,4 +562,36 @@ func XHeaderTypeFormat() *spec.Spec {
 	}
 	f := &spec.File{Messages: msgs, Services: []*spec.Service{svc}}
 	return withCell(spec.One("x_header_type_format", f), "ext/unit=header_type_format", "extended", "valid")
+}
+
+// XNestedAnnotated: the declaration-nesting family - for every codec annotation a message that carries it on one of its own
+// fields AND declares a nested message carrying it too, which in turn declares a deeper one; each of the three is an RPC
+// message of its own.
+func XNestedAnnotated() *spec.Spec {
+	type ann struct {
+		name string
+		mk   func(n string) *spec.Field
+	}
+	anns := []ann{
+		{"Nullable", func(n string) *spec.Field { return spec.F(n, "string").Opt().Null() }},
+		{"Int64", func(n string) *spec.Field { return spec.F(n, "int64").I64(spec.EncNumber) }},
+		{"Bytes", func(n string) *spec.Field { return spec.F(n, "bytes").BEnc(spec.BytesHex) }},
+		{"Stamp", func(n string) *spec.Field { return spec.Ts(n).TsF(spec.TsUnixSec) }},
+		{"Empty", func(n string) *spec.Field { return spec.Msg(n, "Meta").Empty(spec.EmptyNull) }},
+		{"Flat", func(n string) *spec.Field { return spec.Msg(n, "Geo").FlatP(n + "_") }},
+	}
+	msgs := []*spec.Message{spec.M("Meta", spec.F("k", "string")), spec.M("Geo", spec.F("lat", "double"), spec.F("lng", "double"))}
+	var names []string
+	for _, a := range anns {
+		// (the nested messages are not used as fields of the outer ones: an annotated message used as a child is the context
+		// family F-ctx and its open findings; here the point is that the codecs of nested DECLARATIONS are generated)
+		// (nested names are unique per annotation: same-named nested types are the open finding C18-same-named-nested-types-collide)
+		deep := spec.M(a.name+"Deep", spec.F("id", "string"), a.mk("dv"))
+		inner := spec.M(a.name+"Inner", spec.F("id", "string"), a.mk("iv")).WithNested(deep)
+		outer := spec.M(a.name+"Outer", spec.F("id", "string"), a.mk("ov")).WithNested(inner)
+		msgs = append(msgs, outer)
+		names = append(names, a.name+"Outer", a.name+"Outer."+a.name+"Inner", a.name+"Outer."+a.name+"Inner."+a.name+"Deep")
+	}
+	f := &spec.File{Messages: msgs, Services: []*spec.Service{EchoService("NestedAnnotatedService", names...)}}
+	return withCell(spec.One("x_nested_annotated", f), "ext/unit=nested_annotated", "extended", "valid", "codec")
 }
